@@ -13,6 +13,8 @@ let () =
   let rule =
     match !engine with
     | "c16" -> C16.run ~tier:!tier ~seed:!seed ~only:!only acc; C16.rule
+    | "wr" -> Wr.run ~tier:!tier ~seed:!seed ~only:!only acc; Wr.rule
+    | "c20" -> C20.run ~tier:!tier ~seed:!seed ~only:!only acc; C20.rule
     | e -> prerr_endline ("unknown engine " ^ e); exit 2 in
   let wall = Unix.gettimeofday () -. t0 in
   let j = result_json acc ~engine:!engine ~seed:!seed ~tier:!tier ~rule ~wall in
